@@ -139,7 +139,8 @@ func Force(v value.Value, err error) (o Outcome) {
 	}
 	defer func() {
 		if r := recover(); r != nil {
-			o = Outcome{Err: fmt.Errorf("panic while forcing the result: %v", r), Panic: r}
+			// forcing a lazy result happens in the host, outside of the evaluation call: an error outcome
+			o = Outcome{Err: fmt.Errorf("panic while forcing the result: %v", r)}
 		}
 	}()
 	if e := deepForce(v, 0); e != nil {
